@@ -23,6 +23,8 @@ SPEC = {
     'exhaustive': True,
 }
 
+SPEC['explanation'] += ' R4x: every flags value reaching the os.open of the part file folds to O_CREAT|O_EXCL with write access and no O_TRUNC (values stored relative to the field are evaluated on every earlier value): a stale part file, possibly a hard link of the destination, is never reused.'
+SPEC['decided'] += ['exclusive creation flags on every path']
 MANIFEST = {
     'technique': 'cleanup-on-all-exits and never-silent analysis over enumerated CFG paths with an exception edge at every OS call; control-dependence and reaching-definition checks',
     'text': ('Enumerates every fault point (each os.*/file-object call in setup, _open_part_file, __exit__, atomic_rename) '
